@@ -3,7 +3,7 @@
 
   DONE here: `_quantify` / `BDD.quantify` / `exist` / `forall` and the quantifier aliases of
   `apply` (so `apply` with capacity now covers EVERY operator: `applyCapQ`); `cofactor` / `let` with
-  Boolean values; `compose` / `let` with functions; `rename` / `let` with names / `copy_bdd`; `cube`.
+  Boolean values; `compose` / `let` with functions; `rename` / `let` with names / `copy_bdd`; `cube`; `add_expr`.
   For each: the twin over an arbitrary `find_or_add` (and nested `ite`) is the model when
   instantiated with the capacity-free ones; the three-outcome specification holds over ANY
   `find_or_add` / `ite` with three-outcome specifications (documented result | aborted by a
@@ -18,6 +18,7 @@ import DDProofs.Capacity3Quantify
 import DDProofs.Capacity3Cofactor
 import DDProofs.Capacity3Rename
 import DDProofs.Capacity3Cube
+import DDProofs.Capacity3Expr
 import DDProps.C17Capacity2
 open Std
 
@@ -199,5 +200,31 @@ theorem C17_cube_full_dyn (cap : Nat) (ext : Nat → Nat) (m : Mgr) (hD : DynInv
 
 example : DynTotal capSt.ext capM (cubeCap 6 [("a", true), ("b", false)] capM) :=
   C17_cube_full_dyn 6 capSt.ext capM capM_dynInv _
+
+/-! ## `add_expr` -/
+
+theorem C17_add_expr_layer_is_model :
+    (∀ t, evalAstG var apply quantify rename t = evalAst t) ∧
+    addExprG (evalAstG var apply quantify rename) = addExpr :=
+  ⟨evalAstG_model, addExprG_model⟩
+
+/-- GENERIC: the evaluation of ANY syntax tree over nested `var` / `apply` / `quantify` / `rename`
+that are total on arbitrary arguments -/
+theorem C17_add_expr_over (varX : String → M Int)
+    (applyX : String → Int → Option Int → Option Int → M Int)
+    (quantX : Int → List Key → Bool → M Int) (renameX : Int → List (String × String) → M Int)
+    (hv : VarNestedTot varX) (ha : ApplyNestedTot applyX) (hq : QuantNestedTot quantX)
+    (hr : RenameNestedTot renameX) (toks : List Tok) (m : Mgr) (hI : Inv m) (hc : m.ctx = true) :
+    TotE m (addExprToksG (evalAstG varX applyX quantX renameX) toks m) :=
+  addExprToksG_totE _ (evalAstG_totE _ _ _ _ hv ha hq hr) toks m hI hc
+
+/-- C17 `BDD.add_expr` with `max_nodes = cap`: ANY text, whatever it returns or raises — refused
+half-way through the formula, or a syntax error after some sub-formulas were built: `DynTotal` -/
+theorem C17_add_expr_full_dyn (cap : Nat) (ext : Nat → Nat) (m : Mgr) (hD : DynInv ext m)
+    (s : String) : DynTotal ext m (addExprCap cap s m) :=
+  addExprCap_total_dyn cap ext m hD s
+
+example : DynTotal capSt.ext capM (addExprCap 6 "a /\\ (b \\/ ~ c)" capM) :=
+  C17_add_expr_full_dyn 6 capSt.ext capM capM_dynInv _
 
 end DD
